@@ -169,7 +169,38 @@ impl VxToBe for u128 { type Arr = [u8; 16];
   #[verifier::external_body]
   fn vx_to_be_bytes(self) -> (r: [u8; 16]) ensures r@ == enc_be(self as nat, 16) { self.to_be_bytes() } }
 
+// little-endian counterparts: never used by the pinned code; specified so that a change to little-endian I/O is decided
+// (it fails the big-endian post-condition) instead of being an unsupported construct
+pub trait VxToLe: Sized { type Arr; fn vx_to_le_bytes(self) -> Self::Arr; }
+impl VxToLe for u16 { type Arr = [u8; 2];
+  #[verifier::external_body]
+  fn vx_to_le_bytes(self) -> (r: [u8; 2]) ensures r@ == enc_be(self as nat, 2).reverse() { self.to_le_bytes() } }
+impl VxToLe for u32 { type Arr = [u8; 4];
+  #[verifier::external_body]
+  fn vx_to_le_bytes(self) -> (r: [u8; 4]) ensures r@ == enc_be(self as nat, 4).reverse() { self.to_le_bytes() } }
+impl VxToLe for i32 { type Arr = [u8; 4];
+  #[verifier::external_body]
+  fn vx_to_le_bytes(self) -> (r: [u8; 4]) ensures r@ == enc_be(i32_bits(self), 4).reverse() { self.to_le_bytes() } }
+impl VxToLe for u64 { type Arr = [u8; 8];
+  #[verifier::external_body]
+  fn vx_to_le_bytes(self) -> (r: [u8; 8]) ensures r@ == enc_be(self as nat, 8).reverse() { self.to_le_bytes() } }
+impl VxToLe for u128 { type Arr = [u8; 16];
+  #[verifier::external_body]
+  fn vx_to_le_bytes(self) -> (r: [u8; 16]) ensures r@ == enc_be(self as nat, 16).reverse() { self.to_le_bytes() } }
+#[verifier::external_body]
+pub fn le_u16(s: &[u8]) -> (r: std::result::Result<u16, std::array::TryFromSliceError>)
+    ensures s.len() == 2 ==> r is Ok && r.unwrap() as nat == be_nat(s@.reverse()), s.len() != 2 ==> r is Err,
+{ use std::convert::TryInto; Ok(u16::from_le_bytes(s.try_into()?)) }
+#[verifier::external_body]
+pub fn le_u32(s: &[u8]) -> (r: std::result::Result<u32, std::array::TryFromSliceError>)
+    ensures s.len() == 4 ==> r is Ok && r.unwrap() as nat == be_nat(s@.reverse()), s.len() != 4 ==> r is Err,
+{ use std::convert::TryInto; Ok(u32::from_le_bytes(s.try_into()?)) }
+#[verifier::external_body]
+pub fn le_u128(s: &[u8]) -> (r: std::result::Result<u128, std::array::TryFromSliceError>)
+    ensures s.len() == 16 ==> r is Ok && r.unwrap() as nat == be_nat(s@.reverse()), s.len() != 16 ==> r is Err,
+{ use std::convert::TryInto; Ok(u128::from_le_bytes(s.try_into()?)) }
 pub assume_specification [<u16 as std::convert::From<bool>>::from] (b: bool) -> (r: u16) ensures r == (if b { 1u16 } else { 0u16 });
+pub assume_specification [<i32 as std::convert::From<u16>>::from] (x: u16) -> (r: i32) ensures r == x as i32;
 pub assume_specification [u8::from_be] (x: u8) -> (r: u8) ensures r == x;
 pub assume_specification [u8::to_be] (x: u8) -> (r: u8) ensures r == x;
 
